@@ -74,8 +74,10 @@ def wrap_enqueue():
 
     def enqueue(self, registration):
         res = orig(self, registration)
-        ref = self._unfinished_jobs[-1]
-        reg = registration._registrant  # noqa: SLF001
+        ref = sched.LAST_REF[0]                  # the reference the stand-in handed out for this job
+        reg = getattr(registration, "_registrant", None)
+        if ref is None:
+            return res
         if hasattr(reg, "simulation_id"):
             REF_KEY[ref.id] = reg.simulation_id
         else:
